@@ -12,11 +12,11 @@ CHECKS = {
     "C18": dict(
         pkg="c18", race=False,
         technique="lock-step reference-model monitor + reset-twin relational monitor over seeded op sequences",
-        level_text="MinimumMeasurement.Update with a positive result is modelled as one more sample. Reset overlapping Add (300 rounds per case; free-running, or both queued behind an identity Update that holds the instance lock and yields): afterwards the instance equals, bit for bit, a new instance with or without that sample. Every Add/Get/Reset/Update result of the real primitives is compared online with an independent reference fold "
+        level_text="For the exponential average the warm-up mean is checked after Updates as well. MinimumMeasurement.Update with a positive result is modelled as one more sample. Reset overlapping Add (300 rounds per case; free-running, or both queued behind an identity Update that holds the instance lock and yields): afterwards the instance equals, bit for bit, a new instance with or without that sample. Every Add/Get/Reset/Update result of the real primitives is compared online with an independent reference fold "
                    "(minimum, latest, warm-up mean, hull, variance>=0), reset twins are compared bit-for-bit, the flag is checked against "
                    "observed value changes, and window folds against a reference and a permutation - over thousands (quick) to hundreds of "
                    "thousands (thorough) of seeded sequences. Exploration: it shows the property on the sequences run, not for all.", shards=(4, 16), timeout_s=(300, 1800),
-        require=["minimum_updates_modelled_as_a_sample", "concurrent_reset_rounds", "adds_changing_value", "adds_not_changing_value", "reset_twin_pairs", "window_folds", "hull_checks",
+        require=["warmup_mean_checks_after_an_update", "minimum_updates_modelled_as_a_sample", "concurrent_reset_rounds", "adds_changing_value", "adds_not_changing_value", "reset_twin_pairs", "window_folds", "hull_checks",
                  "warmup_mean_checks", "concurrent_minimum_rounds", "variance_alpha_twin_pairs", "concurrent_single_update_rounds"],
         rule="PRNG op sequences (add/get/update/reset) over samples in [1,2^50] for each primitive (minimum, single, "
              "exp-average, simple EMA, moving variance, windowless percentile) run in lock-step with a reference fold; "
@@ -29,12 +29,12 @@ CHECKS = {
     "C04": dict(
         pkg="c04", race=False, shard_env={"GO_CONCURRENCY_LIMIT_LOG10ROOT_PRE_COMPUTE": "4096", "GO_CONCURRENCY_LIMIT_SQRT_PRE_COMPUTE": "4096"}, shards=(4, 16), timeout_s=(300, 1800),
         technique="bounds-and-recover monitor after every sample over hostile seeded sample sequences",
-        level_text="A quarter of the Vegas cases carry caller-supplied step / threshold functions (limit/2, limit-3, threshold 0 / -1, +2); one case in five uses a debug-enabled logger; one in twelve an out-of-range smoothing (constructor default applies). After every OnSample (run under recover) of AIMD/Vegas/Gradient/Gradient2, bare and wrapped by windowed/traced limits, the "
+        level_text="One Vegas / Gradient case in ten asks the constructor for its default maximum (0 / -1 => 1000). A quarter of the Vegas cases carry caller-supplied step / threshold functions (limit/2, limit-3, threshold 0 / -1, +2); one case in five uses a debug-enabled logger; one in twelve an out-of-range smoothing (constructor default applies). After every OnSample (run under recover) of AIMD/Vegas/Gradient/Gradient2, bare and wrapped by windowed/traced limits, the "
                    "reported estimate is checked against [max(1,min), max(max,initial)] (AIMD: max(initial, max in-flight seen + increment)); "
                    "int(NaN) shows up as MinInt64 and trips the same bound. Hostile inputs: rtt 0/1/baseline/up to 2^62, in-flight 0..2^31-1, "
                    "drop-only phases; one shard in four each is started with both pre-computed tables enlarged, only the sqrt table, only the log10 table; one case in twelve asks for the default minimum (0) together with a queue allowance that is 0 for small limits "
                    "(fixed 0 or limit/10). Exploration over seeded sequences, not a proof for all inputs.",
-        require=["vegas_cases_with_caller_supplied_functions", "cases_with_out_of_range_smoothing", "samples", "estimate_changes", "cases_with_rtt_zero", "cases_with_drop_only_phase", "cases_default_minimum_and_zero_queue_allowance"],
+        require=["cases_asking_for_the_default_maximum", "vegas_cases_with_caller_supplied_functions", "cases_with_out_of_range_smoothing", "samples", "estimate_changes", "cases_with_rtt_zero", "cases_with_drop_only_phase", "cases_default_minimum_and_zero_queue_allowance"],
         rule="PRNG valid configuration (min<=initial incl. initial>max, smoothing/backoff in (0,1], queue allowance<=max) x wrapper "
              "(bare, windowed, traced, traced+windowed) x 50-400 samples from hostile/benign phases; non-trivial = the reported estimate changed at "
              "least once; distinct = distinct (config, wrapper, length, first sample).",
@@ -43,13 +43,13 @@ CHECKS = {
     "C06": dict(
         pkg="c06", race=False, shard_env={"GO_CONCURRENCY_LIMIT_LOG10ROOT_PRE_COMPUTE": "4096", "GO_CONCURRENCY_LIMIT_SQRT_PRE_COMPUTE": "4096"}, shards=(4, 16), timeout_s=(300, 1800),
         technique="before/after monitor on drop samples from seeded reachable states + bounded-progress monitor on sustained drop runs",
-        level_text="A quarter of the Vegas cases carry caller-supplied step / threshold functions. From PRNG-generated reachable states (config + random prior history) every drop sample is checked for non-increase of the "
+        level_text="One Vegas / Gradient case in eight asks for the default maximum (the configured minimum still holds). A quarter of the Vegas cases carry caller-supplied step / threshold functions. From PRNG-generated reachable states (config + random prior history) every drop sample is checked for non-increase of the "
                    "reported estimate, AIMD additionally for the exact rule max(1,min(limit-1,floor(limit*ratio))) (exact rational and float floor "
                    "both accepted); sustained drop runs with unique increasing RTTs (so probes are observable) must reach the floor within an "
                    "analytic bound of effective samples; cap without enough effective samples is inconclusive. Concurrent: N drops delivered to one AIMD limit at once must "
                    "compose exactly; 2-8 goroutines deliver only drops to one Vegas / Gradient limit (large limits, the user-supplied queue function yields "
                    "or sleeps 20us) and the values reported to a change listener never rise. Exploration.",
-        require=["vegas_cases_with_caller_supplied_functions", "concurrent_drop_rounds/vegas", "concurrent_drop_rounds/gradient", "single_drop_samples", "single_drop_lowered", "aimd_exact_rule_checks", "sustained_drop_samples",
+        require=["cases_asking_for_the_default_maximum", "vegas_cases_with_caller_supplied_functions", "concurrent_drop_rounds/vegas", "concurrent_drop_rounds/gradient", "single_drop_samples", "single_drop_lowered", "aimd_exact_rule_checks", "sustained_drop_samples",
                  "floor_reached/aimd", "floor_reached/vegas", "floor_reached/gradient", "probe_or_baseline_samples_observed", "concurrent_drop_rounds"],
         rule="case = (algorithm in AIMD/Vegas/Gradient, valid config, random prefix of 0-150 benign/hostile samples) then either 1-4 hostile drop "
              "samples or a sustained drop run; non-trivial = some drop lowered the estimate / the run started above the floor; distinct = "
@@ -59,12 +59,12 @@ CHECKS = {
     "C07": dict(
         pkg="c07", race=False, shard_env={"GO_CONCURRENCY_LIMIT_LOG10ROOT_PRE_COMPUTE": "4096", "GO_CONCURRENCY_LIMIT_SQRT_PRE_COMPUTE": "4096"}, shards=(4, 16), timeout_s=(300, 1800),
         technique="before/after monitor on app-limited samples + bounded-progress (stuck-detection) monitor on healthy saturated runs from seeded reachable states",
-        level_text="A quarter of the non-AIMD recovery runs use a debug-enabled logger; one AIMD run in six asks for the default increment (0 / -1 => 1). Gradient recovery runs with probing disabled last 2100 samples and must never collapse at a probe. From PRNG-generated reachable states (valid config + prior history with drops, zero and huge RTTs): app-limited non-drop samples "
+        level_text="One Vegas recovery run in five carries a caller-supplied threshold (0 / -1): growth by the default increase step, bound adjusted. A quarter of the non-AIMD recovery runs use a debug-enabled logger; one AIMD run in six asks for the default increment (0 / -1 => 1). Gradient recovery runs with probing disabled last 2100 samples and must never collapse at a probe. From PRNG-generated reachable states (valid config + prior history with drops, zero and huge RTTs): app-limited non-drop samples "
                    "(2*inFlight < reported estimate; AIMD inFlight < limit, including the edge value) must not raise the estimate; healthy saturated "
                    "runs at the baseline RTT must add the increment on every sample (AIMD), grow by at least the queue allowance per non-probe sample "
                    "(Gradient), or bring the reported estimate to ceiling-1 within an analytic sample bound (Vegas, Gradient2); a run that stopped "
                    "rising below the ceiling is a violation, one still rising at the cap is inconclusive. Exploration.",
-        require=["recovery_runs_with_a_debug_logger", "aimd_recovery_runs_with_the_default_increment", "gradient_recovery_runs_with_probing_disabled", "app_limited_samples", "app_limited_samples_at_the_edge", "healthy_samples", "recovered/aimd", "recovered/vegas",
+        require=["vegas_recovery_runs_with_a_caller_supplied_threshold", "recovery_runs_with_a_debug_logger", "aimd_recovery_runs_with_the_default_increment", "gradient_recovery_runs_with_probing_disabled", "app_limited_samples", "app_limited_samples_at_the_edge", "healthy_samples", "recovered/aimd", "recovered/vegas",
                  "recovered/gradient", "recovered/gradient2", "gradient_probes_observed", "concurrent_saturated_rounds"],
         rule="case = (algorithm, valid config, random prefix of 0-150 hostile/drop-heavy/benign samples) then app-limited samples or a healthy "
              "saturated run; non-trivial = run started below ceiling-1 (always for app-limited cases); distinct = distinct (config, start estimate, history length).",
@@ -85,13 +85,13 @@ CHECKS = {
     "C15": dict(
         pkg="c15", race=False, shards=(4, 16), timeout_s=(300, 1800),
         technique="online trace monitor over unique-RTT histories: suffix-minimum, reset-order, staleness and probe-spacing checks on RTTNoLoad()",
-        level_text="Every sample has a unique RTT (level steps up and down), so RTTNoLoad() after each sample names its source sample. The monitor "
+        level_text="Reset-horizon check (Vegas): the countdown runs from the last certain reset - once its horizon has passed the baseline must stem from a sample no earlier than the earliest possible probe (0.5 x multiplier x smallest estimate after that reset). Every sample has a unique RTT (level steps up and down), so RTTNoLoad() after each sample names its source sample. The monitor "
                    "checks: unset or <= current RTT; equals an observed RTT that is the minimum since its own sample; the implied reset point never "
                    "moves backwards; age of the source < multiplier*(max estimate+1)+1 (Vegas) / < 2*interval (Gradient); resets neither overdue nor "
                    "earlier than the documented jitter range allows. Jitter is reproducible through math/rand.Seed. One Vegas case in four is built by "
                    "NewDefaultVegasLimit / NewDefaultVegasLimitWithLimit / the full constructor with probeMultiplier -1 or 0 (documented default 30), half of "
                    "those with the limit pinned by app-limited samples; one in three of the others is handed a caller-supplied baseline measurement. Exploration.",
-        require=["cases_with_caller_supplied_baseline_measurement", "cases_with_default_probe_multiplier/NewDefaultVegasLimit", "cases_with_default_probe_multiplier/WithRegistry(probeMultiplier=-1)", "samples", "baseline_resets_observed", "baseline_raises_observed", "baseline_lowerings_observed", "cases/vegas", "cases/gradient"],
+        require=["reset_horizon_checks", "cases_with_caller_supplied_baseline_measurement", "cases_with_default_probe_multiplier/NewDefaultVegasLimit", "cases_with_default_probe_multiplier/WithRegistry(probeMultiplier=-1)", "samples", "baseline_resets_observed", "baseline_raises_observed", "baseline_lowerings_observed", "cases/vegas", "cases/gradient"],
         rule="case = (Vegas with max<=40 and multiplier in {1..30} or Gradient with interval in {3,10,50,200,disabled}, math/rand seed, 1500-4000 "
              "samples with unique RTTs whose level steps up/down); non-trivial = at least one reset and one lowering of the baseline observed; "
              "distinct = distinct (config, seed, length, middle RTT).",
@@ -115,7 +115,7 @@ CHECKS = {
     "C03": dict(
         pkg="c03", race=False, shards=(4, 16), timeout_s=(300, 2400),
         technique="lock-step reference-model monitor over seeded op sequences + porcupine linearizability check of recorded concurrent histories + quiescence invariant",
-        level_text="Sequential: after every acquire/release/SetLimit/add/remove step on both partitioned strategies the grant decision (the iff of the "
+        level_text="Release-window rounds (1500 per case): total at the limit, both partitions at their share; one goroutine releases a token of a while another keeps asking for b until the freed slot can be borrowed and then asks for a - which must be admitted. Sequential: after every acquire/release/SetLimit/add/remove step on both partitioned strategies the grant decision (the iff of the "
                    "statement), total busy/limit, every bin count and every bin share are compared with an integer-arithmetic reference model "
                    "(dyadic and decimal fractions, zero fractions, unknown/unmatched/empty keys, overlapping predicates, limits set to <=0; lookup partition objects named differently from the key they are registered under, re-adding a registered key "
                    "must be refused; the bundled string matcher in both flavours with patterns in either case). "
@@ -123,7 +123,7 @@ CHECKS = {
                    "same model, bins must be zero at quiescence. Storms: 2-5 concurrent SetLimit callers, and AddPartition racing with a "
                    "limit change (barrier-released, 120 rounds): at quiescence every bin share must be the share of the limit in force. "
                    "Exploration over the sequences and interleavings produced.",
-        require=["acquires", "releases", "setlimits", "partition_adds", "partition_removes", "grants_on_guaranteed_share_while_total_full",
+        require=["release_window_rounds_with_a_borrowed_grant", "acquires", "releases", "setlimits", "partition_adds", "partition_removes", "grants_on_guaranteed_share_while_total_full",
                  "grants_borrowing_beyond_share", "requests_for_unknown_or_unmatched_keys", "concurrent_histories", "histories_linearizable",
                  "overlapping_operation_pairs", "sequential_cases/lookup", "sequential_cases/predicate", "storm_quiescent_share_checks", "storm_add_vs_setlimit_rounds", "partition_duplicate_adds_refused"],
         rule="sequential case = (strategy kind, 1-5 partitions with fractions k/32 or k/100 summing <=1, total limit 1-50, 20-120 ops); concurrent case = "
@@ -135,7 +135,7 @@ CHECKS = {
     "C14": dict(
         pkg="c14", race=False, shards=(4, 16), timeout_s=(300, 1800),
         technique="event-sequence monitor over test doubles (recording limiter/listener/handler/invoker/stream, scripted classifiers)",
-        level_text="One stream in five runs behind another stream interceptor of this package (each gates every operation). Every intercepted call is judged from the recorded event sequence: exactly one Acquire, on the limiter configured for that "
+        level_text="Shared-interceptor cases use 8-64 goroutines over a real DefaultLimiter with the default limit-exceeded classifier under the scenario watchdog (a wedged limiter is classified as a library-mutex deadlock); default-direction cases: 20 receives parked in the transport, a send is still admitted. One stream in five runs behind another stream interceptor of this package (each gates every operation). Every intercepted call is judged from the recorded event sequence: exactly one Acquire, on the limiter configured for that "
                    "operation (unary / receive / send), before the wrapped call; wrapped call invoked iff granted; exactly one completion whose "
                    "outcome equals the consulted classifier's result (success for an error-free stream op; default classifiers when none configured); "
                    "result and error returned by identity; on refusal nothing else touched and the status code equals the limit-exceeded "
@@ -143,7 +143,7 @@ CHECKS = {
                    "error / limiter objects (identity). The two stream response classifiers are configured independently (a classifier serves one direction only; the other runs on the default); a second stream through "
                    "another interceptor is opened and used in the middle of the first stream's handler. All option combinations incl. defaults, random RecvMsg/SendMsg sequences, plus a shared interceptor over a real "
                    "DefaultLimiter whose in-flight must return to 0. Exploration over seeded inputs.",
-        require=["streams_behind_another_stream_interceptor", "stream_ops_with_only_one_response_classifier_configured", "streams_opened_while_another_is_open", "unary_calls", "stream_ops", "granted_calls_checked", "refused_calls_checked", "send_ops_on_recording_send_limiter",
+        require=["default_direction_cases", "streams_behind_another_stream_interceptor", "stream_ops_with_only_one_response_classifier_configured", "streams_opened_while_another_is_open", "unary_calls", "stream_ops", "granted_calls_checked", "refused_calls_checked", "send_ops_on_recording_send_limiter",
                  "recv_ops_on_recording_recv_limiter", "shared_interceptor_calls", "calls_with_a_dead_context"],
         rule="case = unary client/server call (grant/refuse, handler result, classifier result, option subset) or a stream with 1-12 RecvMsg/SendMsg ops "
              "(each with its own grant/error/classifier result) or a shared-interceptor stress; non-trivial = every judged case; distinct = distinct "
@@ -154,7 +154,7 @@ CHECKS = {
     "C20": dict(
         pkg="c20", race=False, shards=(8, 16), timeout_s=(600, 3000),
         technique="recording MetricRegistry + lock-step model of emitted samples/gauges; backend-content and dogstatsd wire-capture monitors; poller life-cycle monitor (goroutine census + poll counters)",
-        level_text="Limiter-path cases: the in-flight sample an instrumented limit emits per window equals the peak at admission incl. dropped requests, drop counter iff the window had a drop; concurrent limiter cases: no in-flight figure above the constant limit. With a recording registry every admission decision of Simple/Precise/Lookup/Predicate strategies must emit exactly the in-flight "
+        level_text="Half of the polled-gauge cases register two of the three gauges after Start (the early gauge's poll count is the clock: 40 more polls without the late ones being polled is a violation). Limiter-path cases: the in-flight sample an instrumented limit emits per window equals the peak at admission incl. dropped requests, drop counter iff the window had a drop; concurrent limiter cases: no in-flight figure above the constant limit. With a recording registry every admission decision of Simple/Precise/Lookup/Predicate strategies must emit exactly the in-flight "
                    "(bin) count at the decision, gauges must equal the enforced limit/shares after every step, every OnSample of every limit kind must "
                    "emit rtt and in-flight once and the drop counter iff dropped under the prefixed names. The bundled registries are checked through the "
                    "go-metrics registry contents and the captured dogstatsd wire lines (kind suffix, prefixed name, value), the address-based datadog "
@@ -164,7 +164,7 @@ CHECKS = {
                    "Start/Stop/RegisterGauge sequences (sequential and concurrent) with a census of live poller goroutines (1 iff started, never 2, 0 "
                    "after Stop returns), frozen supplier counts while stopped, and a watchdog that classifies a hang as the Stop-vs-tick wait-for cycle "
                    "from the goroutine dump. Exploration.",
-        require=["limiter_path_windows", "concurrent_limiter_inflight_samples", "queue_gauge_dynamic_cases", "strategy_decisions", "partition_decisions", "limit_samples", "limit_drop_samples", "gauge_reads", "forwarded_samples_checked",
+        require=["gauges_registered_after_start", "limiter_path_windows", "concurrent_limiter_inflight_samples", "queue_gauge_dynamic_cases", "strategy_decisions", "partition_decisions", "limit_samples", "limit_drop_samples", "gauge_reads", "forwarded_samples_checked",
                  "polled_gauge_checks", "forwarded_samples_checked_via_udp", "lifecycle_states_checked", "frozen_poll_count_checks", "live_poll_observations", "lifecycle_cases/gometrics",
                  "lifecycle_cases/datadog", "concurrent_lifecycle_cases", "concurrent_strategy_sample_rounds"],
         rule="case kinds: strategy op sequence (30-80 ops), partitioned strategy op sequence, limit sample sequence (30-90 samples, every limit kind incl. "
@@ -223,7 +223,7 @@ CHECKS = {
                    "and leaves (cancelled) must be refused, not take the unit. Two-holder rounds (capacity 2, three queued callers): the second holder completes at the instant the first release's "
                    "further hand-off attempt is refused (or right afterwards) - the two units must be held by the first two callers in order. Every constructor: FromConfig{fifo,lifo,default}, WithDefaults, the "
                    "deprecated Fifo/Lifo constructors (+WithDefaults), FixedPool and Pool with OrderingFIFO/LIFO (also with backlog sizes 0 / -1 = default). Exploration over seeded scenarios.",
-        require=["releases_landing_on_an_arriving_caller", "two_holder_rounds", "departures_while_a_unit_lies_free", "releases_coinciding_with_a_departure", "grants_checked", "grants_with_a_choice", "releases_with_refused_handoff", "scenarios/fifo", "scenarios/lifo", "constructor/WithDefaults",
+        require=["releases_landing_on_an_arriving_caller", "two_holder_rounds", "two_holder_rounds_with_parallel_releases", "departures_while_a_unit_lies_free", "releases_coinciding_with_a_departure", "grants_checked", "grants_with_a_choice", "releases_with_refused_handoff", "scenarios/fifo", "scenarios/lifo", "constructor/WithDefaults",
                  "constructor/NewLifoBlockingLimiterWithDefaults", "constructor/FixedPool{OrderingLIFO}", "constructor/Pool{OrderingFIFO}"],
         rule="scenario = (constructor (20), 6-20 ops: arrival / cancel / time-out of the oldest / release); non-trivial = at least two grants; distinct = distinct (constructor, trace).",
         assumptions=COMMON_ASSUME + ["a caller whose time-out or cancellation coincides with a release may legitimately still be granted (it was queued when the hand-off happened)"],
@@ -250,7 +250,7 @@ CHECKS = {
     "C12": dict(
         pkg="c12", race=False, shards=(4, 16), timeout_s=(600, 3000),
         technique="quiescence-invariant monitor in a synctest bubble: queue_size gauge (recording registry) = backlog length (verif accessor) = callers inside Acquire <= bound; zero-virtual-time refusal at a full backlog",
-        level_text="Release ops that cancel the hand-off target while the delegate is being asked; pool cases (FixedPool / Pool x FIFO/LIFO): exactly the configured backlog bound of callers waits, further ones are refused at once, queue gauges agree. One single arrival in four comes with an already-done context. PRNG sequences of single arrivals, simultaneous bursts, releases (all outcomes), cancellations and time advances (across backlog "
+        level_text="A quarter of the scenarios run with the backlog time-out disabled (negative). Release ops that cancel the hand-off target while the delegate is being asked; pool cases (FixedPool / Pool x FIFO/LIFO): exactly the configured backlog bound of callers waits, further ones are refused at once, queue gauges agree. One single arrival in four comes with an already-done context. PRNG sequences of single arrivals, simultaneous bursts, releases (all outcomes), cancellations and time advances (across backlog "
                    "time-outs) on the queue limiter (FIFO/LIFO/default, eviction on/off, backlog 1-4, capacity 1-2), optionally with yields at the "
                    "check->push, push->select and hand-off windows. At every quiescent point the public queue_size gauge, the backlog length and the "
                    "number of callers whose Acquire has not returned must agree and stay within the bound; an arrival at a full backlog must be "
@@ -263,7 +263,7 @@ CHECKS = {
     "C19": dict(
         pkg="c19", race=False, shards=(6, 16), timeout_s=(600, 3000),
         technique="holder-bracket monitor + every-caller-granted-within-timeout monitor on a synctest virtual clock; real-time stress with stuck-state classification",
-        level_text="Two-releases / two-parked cases over the simple strategy: the second holder completes while the first hand-off is inside the strategy (verif point) - both parked callers are served. FixedPool and Pool x {random, FIFO, LIFO}, limit 1-4, callers = limit+1..limit+backlog with PRNG arrival instants (also all "
+        level_text="One configuration in five has a backlog of 11-24 (larger than the smallest sample window). Two-releases / two-parked cases over the simple strategy: the second holder completes while the first hand-off is inside the strategy (verif point) - both parked callers are served. FixedPool and Pool x {random, FIFO, LIFO}, limit 1-4, callers = limit+1..limit+backlog with PRNG arrival instants (also all "
                    "simultaneous) and hold times (also zero), a quarter of the callers cancelling their context while possibly queued, time-out above the "
                    "longest possible wait (random pools: poll period 0 / 7 ms / long): a harness bracket counter (a lower bound of the true "
                    "holders) must never exceed the limit, every caller that did not cancel must be granted (queue pools: within the time-out of its arrival, exact "
@@ -280,7 +280,7 @@ CHECKS = {
     "C02": dict(
         pkg="c02", race=False, shards=(8, 16), timeout_s=(600, 3600),
         technique="conservation monitor: per-layer counts vs harness token ledger after every step / at every quiescent point (synctest), exactly-once accounting of delegate tokens, re-admission of the full limit",
-        level_text="Sequential cases change the strategy's limit (also below what is outstanding) - nothing granted is written off. Shared-context cases: 2-4 callers queued with one and the same context value, the oldest times out, the holder completes - every caller is an individual. (A') 150 rounds per case in which one holder completes while another caller is being admitted (a user metric registry yields inside the strategy's sample emission): at rest strategy count and limiter gauge equal the tokens outstanding. (A) DefaultLimiter over Simple/Precise/Lookup/Predicate, sequential random acquire/complete with all outcomes: strategy busy, bin "
+        level_text="Half of the predicate stacks carry a catch-all partition registered last (overlapping predicates: only the first matching bin is charged). Sequential cases change the strategy's limit (also below what is outstanding) - nothing granted is written off. Shared-context cases: 2-4 callers queued with one and the same context value, the oldest times out, the holder completes - every caller is an individual. (A') 150 rounds per case in which one holder completes while another caller is being admitted (a user metric registry yields inside the strategy's sample emission): at rest strategy count and limiter gauge equal the tokens outstanding. (A) DefaultLimiter over Simple/Precise/Lookup/Predicate, sequential random acquire/complete with all outcomes: strategy busy, bin "
                    "busy and the limiter's in-flight gauge equal the harness's outstanding tokens after every step. (B) blocking / deadline / queue stacks in a "
                    "synctest bubble with arrivals, bursts, releases, cancellations, time advances across time-outs and releases placed at the very "
                    "instant of a bound, optional yields in the push/hand-off windows: at every quiescent point busy = gauge = outstanding delegate tokens = "
@@ -297,7 +297,7 @@ CHECKS = {
     "C05": dict(
         pkg="c05", race=False, shards=(4, 16), timeout_s=(600, 3000),
         technique="recording limit (scripted or wrapping a real algorithm) + equality monitor on the strategy's enforced limit and partition shares after construction and after every sample-driven update (synctest clock closes windows deterministically)",
-        level_text="One case in four builds the strategy with the very number the algorithm starts from (also 0 / negative); one case in twenty goes through NewDefaultLimiterWithDefaults with a strategy built with another number. One case in six uses an algorithm whose estimate is changed from outside between windows (SettableLimit) - after the next completed window enforcement must follow. DefaultLimiter over Simple/Precise/Lookup/Predicate with a recording core.Limit whose estimate trajectory contains 0, negative, "
+        level_text="One lookup stack in five has no named partition left (removed after construction): updates still reach the strategy. One case in four builds the strategy with the very number the algorithm starts from (also 0 / negative); one case in twenty goes through NewDefaultLimiterWithDefaults with a strategy built with another number. One case in six uses an algorithm whose estimate is changed from outside between windows (SettableLimit) - after the next completed window enforcement must follow. DefaultLimiter over Simple/Precise/Lookup/Predicate with a recording core.Limit whose estimate trajectory contains 0, negative, "
                    "repeated and large values (or a real AIMD/Vegas/Gradient2 underneath): right after construction and after every completion during which "
                    "the recorder received an OnSample, the strategy's limit must equal max(1, the estimate the recorder returned) and every partition "
                    "share max(1, ceil(limit x fraction)) of that same value; the lookup strategy's unknown bucket is probed behaviourally. A concurrent "
@@ -311,7 +311,7 @@ CHECKS = {
     "C01": dict(
         pkg="c01", race=False, shards=(4, 16), timeout_s=(600, 3600), parallel=4,
         technique="porcupine linearizability check of recorded client-boundary histories against a counting gate (held, limit) + offline interval sweep (lower/upper bounds of simultaneous holders) over long histories + at-hook assertion in an injected strategy wrapper that every SetLimit is applied while the estimate it carries is still in force, with sequential probes at rest",
-        level_text="M2 limiters are built with a minimum-RTT threshold of 0, 100us or 1s (sub-threshold completions give their unit back like any other). M1: 2-8 goroutines drive DefaultLimiter over Simple/Precise (scripted estimate trajectory incl. 0/negative/repeats, or AIMD/Gradient2 "
+        level_text="Half of the direct precise-strategy histories use a metric registry that yields inside the strategy's sample emission (calls pile up behind an admission in progress). M2 limiters are built with a minimum-RTT threshold of 0, 100us or 1s (sub-threshold completions give their unit back like any other). M1: 2-8 goroutines drive DefaultLimiter over Simple/Precise (scripted estimate trajectory incl. 0/negative/repeats, or AIMD/Gradient2 "
                    "underneath, window pre-filled so sample-driven SetLimit happens inside the history) and PreciseStrategy directly (with concurrent "
                    "SetLimit); call/return events on one logical clock, completions split into REL and SET at the recorded entry of the algorithm's "
                    "OnSample; porcupine decides whether some linearization is a legal run of an atomic counting gate (Illegal = violation with the history, "
